@@ -4,6 +4,7 @@ mod c02;
 mod c06;
 mod c07;
 mod c09;
+mod c10;
 mod c16;
 mod fw;
 mod indep;
@@ -51,6 +52,7 @@ fn main() {
         "C06" => c06::check(tier),
         "C07" => c07::check(tier),
         "C09" => c09::check(tier),
+        "C10" => c10::check(tier),
         "C16" => c16::check(tier),
         _ => {
             eprintln!("unknown check {id}");
